@@ -16,7 +16,10 @@ THEOREMS = [NS + t for t in (
     'C10_trans', 'C10_trans_vals', 'C10_trans_blank_counterexample', 'C10_rank', 'C10_ci', 'C10_blank_neutral',
     'C10_numeric_text_examples')]
 DESIGN_REF = 'DESIGN.md §7 C10'
-RULE = ('every operator {+ - * / ^ & = <> < <= > >=} x all ordered pairs, and unary - and %, over a value pool covering '
+RULE = ('near-equal PAIRS of numbers (x and nextafter(x), k ulps apart, 0.1+0.2 vs 0.3, 4.35*100 vs 435, 2^53 and '
+        '2^60 neighbours differing by 1 as ints and floats, tiny vs 0, -0.0 vs 0.0, random products vs their 15-digit '
+        'roundings) under all six comparisons, each float sent to the model as its exact rational; '
+        'every operator {+ - * / ^ & = <> < <= > >=} x all ordered pairs, and unary - and %, over a value pool covering '
         'every type (numbers of both signs, integral/fractional, integral floats; numeric-looking, non-numeric, empty, '
         'logical-looking and sentinel text; TRUE/FALSE; blank; the seven errors), evaluated through cell references '
         '(=A1 op B1) and, where the operands can be written as literals, as literals; quick = core pool exhaustive + '
@@ -38,7 +41,7 @@ ASSUMPTIONS = [
 TRUSTED = ['modelled, not verified: Python float()/int() on text matching the Excel numeric grammar, repr(float), '
            'str.lower/upper on ASCII+Latin-1, C pow()']
 REQUIRED_BUCKETS = ['arith:cell', 'arith:lit', 'cmp:cell', 'cmp:lit', 'concat:cell', 'concat:lit', 'neg:cell',
-                    'neg:lit', 'pct:cell', 'pct:lit', 'errprop', 'coerce:num', 'coerce:str', 'pow:fractional']
+                    'neg:lit', 'pct:cell', 'pct:lit', 'errprop', 'coerce:num', 'coerce:str', 'pow:fractional', 'cmp:near']
 EXHAUSTIVE = False
 
 SYM = {'Add': '+', 'Sub': '-', 'Mult': '*', 'Div': '/', 'Pow': '^', 'BitAnd': '&', 'Eq': '=', 'NotEq': '<>',
@@ -79,6 +82,8 @@ REPS = [n_(0), n_(2), n_(-8), n_(0.5), s_(''), s_('a'), s_('3'), s_('TRUE'), 'b:
 
 def _py(tok, as_float=False):
     v = core.dec(tok)
+    if as_float == '-0' and v == 0:
+        return -0.0
     if isinstance(v, Fraction):
         if v.denominator == 1 and not as_float:
             return int(v)
@@ -249,9 +254,74 @@ def _mutate_numeric(rng, t):
     return t[:k] + ch + t[k + rng.randrange(2):]
 
 
+def _ulps(x, k):
+    import math
+    for _ in range(abs(k)):
+        x = math.nextafter(x, math.inf if k > 0 else -math.inf)
+    return x
+
+
+def near_clusters(rng, n_random):
+    """clusters of DISTINCT numbers a few ulps (or one unit beyond 2^53) apart, as python values: every pair inside a
+    cluster is compared under all six operators.  Floats travel to the model as their exact rationals."""
+    cl = [
+        [0.1 + 0.2, 0.3, _ulps(0.3, -1), _ulps(0.3, 2)],
+        [1.0, 1 + 2 ** -52, 1 - 2 ** -53, _ulps(1.0, 3)],
+        [4.35 * 100, 435, _ulps(435.0, 1)],
+        [1.1 * 3, 3.3, 0.7 + 0.1, 0.8],
+        [2 ** 53 - 1, 2 ** 53, 2 ** 53 + 1, 2 ** 53 + 2, float(2 ** 53)],
+        [10 ** 15, 10 ** 15 + 1, 1e15, _ulps(1e15, 1)],
+        [2 ** 60, 2 ** 60 + 1, float(2 ** 60), _ulps(float(2 ** 60), -1)],
+        [0, 0.0, '-0', 5e-324, -5e-324, 1e-300, -1e-300, 2.2250738585072014e-308],
+        [-0.1 - 0.2, -0.3, _ulps(-0.3, 1)],
+        [1e-7 * 3, 3e-7, _ulps(3e-7, -2)],
+        [100.0, _ulps(100.0, 1), _ulps(100.0, -1), 100],
+    ]
+    for _ in range(n_random):
+        x = _rand_double(rng)
+        if x == 0:
+            continue
+        kind = rng.randrange(3)
+        if kind == 0:
+            cl.append([x, _ulps(x, rng.choice([-3, -2, -1, 1, 2, 3]))])
+        elif kind == 1:
+            y = rng.uniform(0.5, 20)
+            cl.append([x * y, float(repr(x * y)[:15]) if 'e' not in repr(x * y) else _ulps(x * y, 1),
+                       _ulps(x * y, 1)])
+        else:
+            cl.append([x, x * (1 + rng.choice([1, -1]) * 10 ** -rng.randint(13, 17)), _ulps(x, rng.choice([-1, 1]))])
+    return cl
+
+
+def _near_tok(v):
+    """(token, float flag) of a cluster member"""
+    if v == '-0':
+        return 'n:0/1', '-0'
+    if isinstance(v, int):
+        return n_(v), False
+    return n_(v), True
+
+
 def cases(tier, rng):
     thorough = tier == 'thorough'
     modes = ('cell', 'lit')
+    # --- near-equal pairs of numbers under all six comparisons (exactly one of < = > must hold for them too)
+    for cluster in near_clusters(rng, 400 if thorough else 60):
+        toks = [_near_tok(v) for v in cluster]
+        for (l, lf) in toks:
+            for (r, rf) in toks:
+                for op in CMP:
+                    c = op_case(op, l, r, 'cell', near=1)
+                    if lf:
+                        c['lf'] = lf
+                    if rf:
+                        c['rf'] = rf
+                    yield c
+                    if not thorough and op not in ('Eq', 'Lt'):
+                        continue
+                    c2 = op_case(op, l, r, 'lit', near=1)
+                    if lf != '-0' and rf != '-0' and expressible(c2):
+                        yield c2
 
     def emit(c):
         if expressible(c):
@@ -431,6 +501,8 @@ def bucket(c):
         return f"{c['k']}:{c['mode']}"
     if c['op'] == 'Pow' and c['l'].startswith('n:') and c['r'].startswith('n:') and not c['r'].endswith('/1'):
         return 'pow:fractional'
+    if c.get('near'):
+        return 'cmp:near'
     kind = 'arith' if c['op'] in ARITH else 'concat' if c['op'] == 'BitAnd' else 'cmp'
     return f"{kind}:{c['mode']}"
 
@@ -545,8 +617,10 @@ def oracles(results):
     # ---- the order laws, per mode
     groups = {}
     for (op, l, r, mode, lf, rf), res in by.items():
-        if op in CMP and not lf and not rf:
-            groups.setdefault((l, r, mode), {})[op] = res
+        if op in CMP:
+            # an operand is (token, how it is held in the cell): 3 and 3.0, 0.0 and -0.0 are different operands
+            groups.setdefault((f'{l}{"|f" + str(lf) if lf else ""}', f'{r}{"|f" + str(rf) if rf else ""}', mode),
+                              {})[op] = res
     lt = {}
     eq = {}
     for (l, r, mode), g in groups.items():
@@ -573,6 +647,7 @@ def oracles(results):
         lt[(l, r, mode)] = vals['Lt']
         eq[(l, r, mode)] = vals['Eq']
         # rank, case-insensitivity, blank neutrality
+        l, r = l.split('|')[0], r.split('|')[0]
         kl, kr = _kind(l), _kind(r)
         if kl is not None and kr is not None and kl < kr and not vals['Lt']:
             yield c0, 'rank order number < text < logical violated'
@@ -592,7 +667,7 @@ def oracles(results):
                 yield groups[(l, r, mode)]['Eq'].case, '= is not symmetric'
     # transitivity over all triples of non-blank operands (blank is neutral, not an element of the order)
     for mode in ('cell', 'lit'):
-        elems = sorted({l for (l, r, m) in lt if m == mode and _kind(l) is not None})
+        elems = sorted({l for (l, r, m) in lt if m == mode and _kind(l.split('|')[0]) is not None})
         succ = {a: [b for b in elems if lt.get((a, b, mode))] for a in elems}
         same_ = {a: [b for b in elems if eq.get((a, b, mode))] for a in elems}
         for a in elems:
@@ -600,11 +675,20 @@ def oracles(results):
                 for c_ in succ[b]:
                     if lt.get((a, c_, mode)) is False:
                         yield groups[(a, c_, mode)]['Lt'].case, \
-                            f'transitivity: {core.show(a)} < {core.show(b)} < {core.show(c_)} but not a < c'
+                            f'transitivity: {a} < {b} < {c_} but not a < c'
                 for c_ in same_[b]:
                     if lt.get((a, c_, mode)) is False:
                         yield groups[(a, c_, mode)]['Lt'].case, \
-                            f'transitivity: {core.show(a)} < {core.show(b)} = {core.show(c_)} but not a < c'
+                            f'transitivity: {a} < {b} = {c_} but not a < c'
+            for b in same_[a]:
+                for c_ in succ[b]:
+                    if lt.get((a, c_, mode)) is False:
+                        yield groups[(a, c_, mode)]['Lt'].case, \
+                            f'transitivity: {a} = {b} < {c_} but not a < c'
+                for c_ in same_[b]:
+                    if eq.get((a, c_, mode)) is False:
+                        yield groups[(a, c_, mode)]['Eq'].case, \
+                            f'transitivity: {a} = {b} = {c_} but not a = c'
 
 
 def _kind(tok):
